@@ -3,6 +3,7 @@ import MirProofs.Lemmas.BeatSelf
 import MirProofs.Lemmas.BeatContSelf
 import MirProofs.Lemmas.BeatPScore
 import MirProofs.Lemmas.BeatDefCont
+import MirProofs.Lemmas.BeatInfoSelf
 /-!
   C02 (beat) — a perfect estimate receives the perfect score.
 -/
@@ -94,10 +95,19 @@ theorem p_score_self (r r' : Rat) (rs : List Rat) (thr : Rat) (win : Int) (N cnt
   have : ((rs.length + 2 : Nat) : Rat) ≠ 0 := by positivity
   exact div_self this
 
-/-- Planned, not proved: information gain of a strictly increasing sequence of ≥ 2 beats against itself is 1. -/
-def information_gain_self_statement : Prop :=
-  ∀ (x : List Rat) (bins : Nat), x.Pairwise (· < ·) → 2 ≤ x.length → 2 ≤ bins →
-    ∃ tie, informationGainCore realOps x x bins = .ok (some 1, tie)
+/-- Information gain of a strictly increasing sequence of ≥ 2 beats against itself is exactly 1 (for every number of
+    bins ≥ 2), and no histogram tie is flagged: every beat error is 0, the histogram has a single non-empty bin, the
+    entropy is 0 in both directions (Lemmas/BeatInfoSelf.lean).  With validation, the public function returns the same. -/
+theorem information_gain_self (x : List Rat) (bins : Nat) (hx : x.Pairwise (· < ·)) (hlen : 2 ≤ x.length)
+    (hb : 2 ≤ bins) :
+    informationGainCore realOps x x bins = .ok (some 1, false) ∧
+    (validate x x = .ok () → informationGain realOps x x bins = .ok (some 1, false)) :=
+  ⟨informationGainCore_self x bins hx hlen hb, informationGain_self x bins hx hlen hb⟩
+
+/-- the statement as it was planned (some tie flag): a corollary -/
+theorem information_gain_self_exists (x : List Rat) (bins : Nat) (hx : x.Pairwise (· < ·)) (hlen : 2 ≤ x.length)
+    (hb : 2 ≤ bins) : ∃ tie, informationGainCore realOps x x bins = .ok (some 1, tie) :=
+  ⟨false, informationGainCore_self x bins hx hlen hb⟩
 
 /-! non-vacuity -/
 example : ([5, 6, 7, 8, 9] : List Rat).Pairwise (· < ·) ∧ 5 ≤ ([5, 6, 7, 8, 9] : List Rat).length ∧
@@ -114,5 +124,10 @@ example : (trainSupport [5, 6, 7] (minList 5 [6, 7])).length = 3 ∧
 example : pScoreCore [5, 6, 7] [5, 6, 7] 3 = 1 / 3 := by decide +kernel
 example : validate [5, 6, 7] [5, 6, 7] = .ok () := by decide +kernel
 example : ([5, 6, 7] : List Rat) ≠ [] := by simp
+/-- the hypotheses of `information_gain_self` hold for three beats and the default 41 bins -/
+example : ([5, 6, 7] : List Rat).Pairwise (· < ·) ∧ 2 ≤ ([5, 6, 7] : List Rat).length ∧ 2 ≤ (41 : Nat) ∧
+    validate [5, 6, 7] [5, 6, 7] = .ok () := by decide +kernel
+example : informationGain realOps [5, 6, 7] [5, 6, 7] 41 = .ok (some 1, false) :=
+  (information_gain_self [5, 6, 7] 41 (by decide +kernel) (by decide) (by decide)).2 (by decide +kernel)
 
 end Mir.C02.Beat
